@@ -8,11 +8,14 @@ import (
 	"os"
 
 	"verif/harness/comp/ring"
+	"verif/harness/comp/sessout"
 	"verif/harness/internal/hx"
 )
 
 var components = map[string]func(o *hx.Out, g *hx.Rng, tier string){
 	"ring": ring.Run,
+	"wire": sessout.RunWire,
+	"oob":  sessout.RunOOB,
 }
 
 func main() {
